@@ -172,6 +172,14 @@ def _run_r8(ctx):
     spf = m.method(PMGR, "_set_proxy_headers")
 
     class HRule(BaseRule):
+        def global_value(self, it, name):
+            try:
+                v = ctx.fold.module_const(it.module, name)
+                hash(v)
+            except Exception:
+                return None
+            return AV("const", v, truth=bool(v), none=v is None) if isinstance(v, (str, bytes, int, tuple, frozenset, type(None))) else None
+
         def call(self, it, st, node, recv, pos, kw):
             t = ast.unparse(node.func)
             if t.endswith("parse_url"):
